@@ -31,17 +31,15 @@ RULE = ("placements: every documented placement (22) x every documented receiver
 TRUSTED = ["tools/props/c12_gen.py renders one case both to Rust source and to the model's s-expression (trusted printer)",
            "Spec/TsModule.v + Spec/TsObs.v (extracted) are the reading of the generated TypeScript; Spec/C12Spec.v oracle is the run-time judge",
            "syn parses the Rust source; the model starts from the AST"]
-ASSUMPTIONS = ["listener order across files follows the AST cache's hash order and is compared as a multiset; within a file the order of EventInfo is compared exactly"]
+ASSUMPTIONS = ["files are analysed in sorted path order (C13-sort-before-use); the case's files are handed to the model in that order (python sorts by path components) and listeners are compared in order"]
 
 CLASS_TO_ID = {
-    "kf_no_command": "C12-nocmd", "kf_ident_chars": "C12-ident", "kf_dup_name": "C12-dup", "kf_collision": "C12-collide",
-    "kf_tuple_payload": "C12-tuple", "kf_path_payload": "C12-path", "kf_name_fallback": "C12-name",
+    "kf_no_command": "C12-nocmd", "kf_collision": "C12-collide", "kf_name_fallback": "C12-name",
     "kf_last_segment": "C12-lastseg", "kf_ctor_guess": "C12-ctor", "kf_scope": "C12-scope",
 }
 KIND_TO_CLASSES = {
-    "no-events-module": ["kf_no_command"], "unparseable-events-module": ["kf_ident_chars"],
-    "duplicate-listener": ["kf_dup_name"], "identifier-collision": ["kf_collision"], "duplicate-export": ["kf_dup_name", "kf_collision"],
-    "payload-type": ["kf_tuple_payload", "kf_path_payload", "kf_name_fallback", "kf_last_segment", "kf_ctor_guess", "kf_scope"],
+    "no-events-module": ["kf_no_command"], "identifier-collision": ["kf_collision"], "duplicate-export": ["kf_collision"],
+    "payload-type": ["kf_name_fallback", "kf_last_segment", "kf_ctor_guess", "kf_scope"],
 }
 
 
@@ -76,6 +74,7 @@ def evaluate(cases, judge_property=True):
     """cases -> list of Outcome. judge_property=False: only the correspondence is judged."""
     for i, c in enumerate(cases):
         c["id"] = i
+        c["files"] = sorted(c["files"], key=lambda f: f["name"].split("/"))     # PathBuf order = the model's file order
     hcases = [{"id": c["id"], "files": G.rust_files(c)} for c in cases]
     hobs = vlib.run_harness("c12-events", hcases, per_case_timeout=20)
     with vlib.Sandbox("c12") as sb:
@@ -108,7 +107,8 @@ def evaluate(cases, judge_property=True):
         m_generated, m_chunks, m_reexp = m_out[0] == "true", m_out[1], m_out[2] == "true"
         i_chunks, i_reexp = i_obs
         i_generated = o["index_ts"] is not None
-        canon = lambda ch: sorted(json.dumps(x) for x in ch[0]) if ch else None
+        # since C13-sort-before-use files are analysed in sorted path order: listeners are compared in order
+        canon = lambda ch: [json.dumps(x) for x in ch[0]] if ch else None
         corr_gen = (i_generated == m_generated and canon(i_chunks) == canon(m_chunks)
                     and (i_reexp == ["true"]) == m_reexp and o["rc"] == 0)
         corr = corr_events and corr_gen and syntax is None
